@@ -47,6 +47,11 @@ CHECKS["C16"] = dict(cat="fault_enumeration", engine="wire",
    text="A library client with reconnect (back-off 10 ms) talks to a library server through a proxy that frames JSON messages; a second writer is connected directly. For each session shape (1-3 monitors, every monitor method, client transactions, writer transactions before/during/after the outage) a fault-free run gives the message count per direction; then the session is re-run once per boundary and direction with a cut after message k and a cut inside message k, plus double cuts, refused connection attempts and black holes that only the inactivity probe can detect. After the faults the client must be connected again (bounded progress, no wall-clock verdict: a session that does not recover is reported with the proxy log), then a barrier transaction by the direct writer is awaited and the cache must equal the database on every monitored table and column of every monitor; each client Transact writes a unique marker: results => stored exactly once, error => at most once. Race reports with a libovsdb frame are violations.",
    note="The built-in server always answers monitor_cond_since with found=false, so the found=true branch is not reachable; leader-only mode is exercised by the C16 leader sub-check when present in evidence (counter sessions.leader).", ref="4/C16")
 
+CHECKS["C17"] = dict(cat="exploration", engine="wire",
+   technique="offline checkers over histories recorded at the client boundary: serial replay in the order the monitors were notified (reference model), real-time order, porcupine v1.3.0 linearizability per key, monitor replay = database, conservation; server pause point between notify and commit; race detector on",
+   text="One library server, 4-16 concurrent clients (raw JSON-RPC peers and library clients) issuing increment+read, compare-and-set, claim/release of a unique slot, adopt/move/drop of strongly referenced non-root children (garbage collection under contention) and multi-row reads on a handful of keys; 2-4 monitors registered before and 2-3 during the load, some pinned into a 25 ms hold between a transaction's notification and its commit; random delays at that point. Every writing transaction inserts a uniquely named Log row, so a monitor's notifications give the order the server executed them in. Checked per history: all early monitors saw one order; every acknowledged writer occurs in it exactly once and no failed one; replaying the transactions in that order through the reference model reproduces every reply and the final database; the order respects real time; all per-key sub-histories including read-only and failed transactions are linearizable (porcupine, time-out => inconclusive); every monitor's initial reply + notifications add up to the final database; library clients' caches equal it; final integrity; increments conserved. Held = on the histories recorded; schedules are sampled, not enumerated.",
+   note="Interleavings are whatever the Go scheduler, 16 cores, the race detector's slowdown and the injected delays produce; the evidence counts overlapping call pairs and distinct notified orders.", ref="4/C17")
+
 CHECKS["C09"] = dict(cat="exploration", engine="codec",
    technique="round-trip identity monitor + independent RFC 7047 encoder + wrong-type probes",
    text="Generated schemas over the whole type space (incl. real/boolean map keys, bounded sets, enums, references, scalar uuids) and generated rows (empty/singleton/multi collections, nil/non-nil optionals, zero values, integers at 0, +-1, +-2^31, +-2^53(+1), +-2^62, min/max int64): model -> NewRow -> JSON -> Row.UnmarshalJSON -> GetRowData/CreateModel must give back every field (sets as sets); each column's wire form is compared with an independent RFC encoder; absent columns must leave pre-filled fields untouched; values of the wrong Go type (22 candidates per column) and ill-typed wire values must be rejected by NativeToOvs / SetField / OvsToNative. One known finding (integers beyond 2^53).",
